@@ -775,6 +775,27 @@ def c07(ctx):
                 continue
             if f[1] != "-23":
                 ctx.S("single-label non-reserved domain not rejected as not fully qualified", op="E %d 1 %s" % (m, hx(b"a@" + l)), impl=cl)
+    # through eav_is_email: whatever classes the caller's allow_tld mask lists (all of them, more than all of them), the table still
+    # decides - an unlisted last label and a single label are refused, a listed one is reported with its class
+    al = [l for l in labels if l and 0 not in l][:: (25 if ctx.tier == "quick" else 3)] + [b"zz", b"comm", b"co", b"c", b"invalid1", b"com", b"arpa", b"museum"]
+    acls = ctx.spec(["sT %s" % hx(l) for l in al]); ares = ctx.spec(["sS %s" % hx(b"x." + l) for l in al]); ares1 = ctx.spec(["sS %s" % hx(l) for l in al])
+    for mask in (2044, 2046, 2047, 4094, 65535, 2147483647, 2040, 4):
+        for m in ((5321, 6531) if ctx.tier == "quick" else MODES):
+            for single in (False, True):
+                ops = ["P %d 1 %d %s" % (m, mask, hx(b"a@" + (b"" if single else b"x.") + l)) for l in al]
+                c = ctx.K("tld-api-mask", "default", ops, nontrivial=lambda op, ln: True)
+                for l, op, cl, lc, r2, r1 in zip(al, ops, c, acls, ares, ares1):
+                    f = fields(cl)
+                    if f[1].startswith("setup") or "FAULT" in cl or len(f) < 5:
+                        continue
+                    rc_ = f[4]
+                    if rc_ == "-2" or (int(rc_) < 0 and int(rc_) not in (-26, -23)) or (r1 if single else r2) == "sS 1":
+                        continue                  # refused by the IDN library / not a host name / reserved name: other properties
+                    want = "-23" if single else lc.split(" ")[1]
+                    if rc_ != want:
+                        ctx.S("eav_is_email with tld_check on and allow_tld=%d: the TLD is not classified by the shipped table" % mask, op=op, impl=cl, expected_rc=want)
+                    elif int(want) < 0 and f[1] == "1":
+                        ctx.S("eav_is_email with tld_check on accepts an unlisted / missing TLD (allow_tld=%d)" % mask, op=op, impl=cl)
     # the other IDN back ends (they may hand the name back in the caller's letter case), and long U-label hosts in front of the TLD
     cv = []
     for n in names[:: (60 if ctx.tier == "quick" else 6)] + [b"org", b"xn--p1ai", b"museum"]:
@@ -794,6 +815,20 @@ def c07(ctx):
     for d, cl, sl in zip(lu, cl_, lus):
         if fields(cl)[1] != "-2" and fields(cl)[1] != sl.split(" ")[1]:
             ctx.S("a long internationalised host name is not classified by its last label", op="E 6531 1 %s" % hx(b"a@" + d), impl=cl, table=sl)
+    # IDNA's other label separators (ideographic / fullwidth / halfwidth full stop) as the ONLY separators: the IDN library maps them to '.',
+    # and the A-form it returns is what is classified (a domain that reaches the converter is never judged on the dots of its U-form)
+    idot = []
+    for sep in ("。", "．", "｡"):
+        for t in ("com", "рф", "org", "中国", "museum", "zz", "ελ", "arpa"):
+            idot += [("x" + sep + t).encode(), ("почта" + sep + t).encode(), ("a" + sep + "b" + sep + t).encode(), ("a.b" + sep + t).encode()]
+    def alabel_(u):
+        return u.encode() if all(ord(ch) < 128 for ch in u) else b"xn--" + u.encode("punycode")
+    ids = ctx.spec(["sT %s" % hx(alabel_(re.split("[.。．｡]", d.decode())[-1])) for d in idot])
+    ci = ctx.K("tld-idna-dots", "default", ["E 6531 1 %s" % hx(b"a@" + d) for d in idot], nontrivial=lambda op, ln: True)
+    for d, cl, sl in zip(idot, ci, ids):
+        f = fields(cl)
+        if f[1] != "-2" and f[1] != sl.split(" ")[1]:
+            ctx.S("mode 6531: a domain written with IDNA's other label separators is not classified by the last label of its A-form", op="E 6531 1 %s" % hx(b"a@" + d), domain=d.decode(), impl=cl, table=sl)
     # the LABELS_ALLOW_UNDERSCORE build: '_' is a letter of the label, never a label boundary - the whole last label is looked up
     names = [r[0] for r in tbl]
     pick = names[:: (40 if ctx.tier == "quick" else 5)] + [b"com", b"org", b"museum", b"xn--p1ai"]
